@@ -28,6 +28,12 @@ CLAIMED = {
  'C19': dict(level='exploration', design='5.19',
    text="Seeded search over interleavings of 2..3 threads of which at least one signals a terminal while another emits: inputs of merge / flat_map / zip / amb / concat, source vs trigger of take_until / skip_until / sample, and next || complete/error || error on the four subject types, observers direct and behind an operator, with scheduling points inside the subscriber's callbacks. Oracle: at most one terminal; no delivery whose originating emission started after the terminal callback returned.",
    technique='deterministic simulation: seeded scheduling of racing emitters, contract oracle with logical-clock stamps'),
+ 'C15': dict(level='exploration', design='5.15',
+   text="A catalogue of every thread-creating construct (interval, timer, observe_on, subscribe_on, debounce, timeout and nestings) crossed with every ending (terminal, unsubscribe at a virtual instant or immediately, take, first, take_until(timer), amb(timer), retry), single and repeated subscriptions, run on the virtual clock under seeded schedules with and without timer jitter. Oracle: at quiescence no worker thread the crate spawned is alive (a worker blocked on its queue is the simulator's 'leak' outcome), and after the end instant each worker begins at most one further sleep and takes a bounded number of own steps.",
+   technique='deterministic simulation: virtual discrete-event clock, seeded scheduling, timer-jitter and spurious-wake-up faults; task-table oracle at quiescence'),
+ 'C16': dict(level='exploration', design='5.16',
+   text="Virtual-time runs of interval (new-thread and default scheduler), timer, delay, timeout, sample and debounce over scripted sources with gaps from a tie-free grid, with a slow consumer for timeout and re-subscription for interval/timer. Exact configuration: (virtual instant, event) pairs must equal the closed-form expectation. Jitter configuration (sleeps return up to 30 ms late), reported separately: lower bounds, order, no loss/duplication, and no timeout unless a gap exceeded d.",
+   technique='deterministic simulation: virtual clock + seeded scheduling of timer/source threads; exact and jitter configurations with separate oracles'),
  # -- more claimed
 }
 NA = {
